@@ -100,7 +100,7 @@ def cxToPSum (z : Cx Rat) : Fft.PSum := NearField.psumOfGRat ⟨z.re, z.im⟩
 
 /-- `lyot · crop(ifft(fft(pad(x · apod)) · mask))`, one output pixel, as a formal phase sum. -/
 def knifeRowP (N M start : Nat) (mask apod lyot x : Nat → Cx Rat) (j : Nat) : Fft.PSum :=
-  cxToPSum (lyot j) * knifeRow N M start (NearField.pKerF M) (NearField.pKerB M) (Fft.PSum.ofRat (1 / ((M : Nat) : Rat)))
+  cxToPSum (lyot j) * knifeRow N M start (NearField.psumScalar.kerF M) (NearField.psumScalar.kerB M) (Fft.PSum.ofRat (1 / ((M : Nat) : Rat)))
     (fun q => cxToPSum (mask q)) (fun i => cxToPSum (x i) * cxToPSum (apod i)) j
 
 end HcipyVerif.Passive
